@@ -50,6 +50,7 @@ type Access struct {
 	Kind     string   // R (Get/Has), W (Set), D (Delete), I (iterate)
 	Families []string // resolved families; contains "?…" entries when undecided
 	ViaIterKey bool   // key is iterator.Key() of the same family
+	CondParam  int    // >0: executed only when bool parameter #CondParam (SSA index) is true; 0: unconditional
 }
 
 type Resolver struct {
@@ -858,7 +859,72 @@ type Effects struct {
 	R      *Resolver
 	Direct map[*ssa.Function][]Access
 	Sum    map[*ssa.Function]map[string]bool // "W dogfood:0x03"
-	Ext    map[*ssa.Function]map[string]bool // external effects by table: "W bank", "MINT", ...
+	Own    map[*ssa.Function]map[string]bool // unconditional direct effects (incl. external table)
+	Cond   map[*ssa.Function]map[int]map[string]bool // direct effects executed only if bool param #i is true
+	From   map[*ssa.Function]map[string]bool // effects inherited from callees
+}
+
+// flagParamOf: if instruction in lies in a region executed only when a bool
+// parameter of its function is true (the `isUpdate` idiom), return that
+// parameter's SSA index, else 0.
+func flagParamOf(in ssa.Instruction) int {
+	b := in.Block()
+	f := b.Parent()
+	for d := b; d != nil; d = d.Idom() {
+		idom := d.Idom()
+		if idom == nil {
+			break
+		}
+		ifi, ok := idom.Instrs[len(idom.Instrs)-1].(*ssa.If)
+		if !ok {
+			continue
+		}
+		p, ok := ifi.Cond.(*ssa.Parameter)
+		if !ok {
+			continue
+		}
+		// d must be the true successor and reachable only through it
+		if idom.Succs[0] == d && len(d.Preds) == 1 {
+			for i, q := range f.Params {
+				if q == p && i > 0 {
+					return i
+				}
+			}
+		}
+	}
+	return 0
+}
+
+// condOnly: effects of f that vanish when bool parameter #idx is false.
+func (e *Effects) condOnly(f *ssa.Function, idx int) map[string]bool {
+	out := map[string]bool{}
+	for k := range e.Cond[f][idx] {
+		if !e.Own[f][k] && !e.From[f][k] {
+			other := false
+			for j, m := range e.Cond[f] {
+				if j != idx && m[k] {
+					other = true
+				}
+			}
+			if !other {
+				out[k] = true
+			}
+		}
+	}
+	return out
+}
+
+// falseFlags: SSA parameter indexes of callee that receive the constant false at site.
+func falseFlags(site ssa.CallInstruction, callee *ssa.Function, e *Effects) []int {
+	var out []int
+	for idx := range e.Cond[callee] {
+		if a := argFor(site, idx); a != nil {
+			if c, ok := a.(*ssa.Const); ok && c.Value != nil && c.Value.Kind() == constant.Bool && !constant.BoolVal(c.Value) {
+				out = append(out, idx)
+			}
+		}
+	}
+	return out
 }
 
 // external effect table: method names of SDK keepers reached through the repo's
@@ -900,7 +966,8 @@ func isExternalKeeperCall(ci ssa.CallInstruction) (string, bool) {
 
 func computeEffects(w *World) *Effects {
 	e := &Effects{w: w, R: newResolver(w), Direct: map[*ssa.Function][]Access{},
-		Sum: map[*ssa.Function]map[string]bool{}, Ext: map[*ssa.Function]map[string]bool{}}
+		Sum: map[*ssa.Function]map[string]bool{}, Own: map[*ssa.Function]map[string]bool{},
+		Cond: map[*ssa.Function]map[int]map[string]bool{}, From: map[*ssa.Function]map[string]bool{}}
 	var fns []*ssa.Function
 	for f := range w.AllFuncs {
 		if f.Pkg == nil && f.Parent() == nil {
@@ -921,21 +988,39 @@ func computeEffects(w *World) *Effects {
 	sort.Slice(fns, func(i, j int) bool { return fns[i].String() < fns[j].String() })
 	for _, f := range fns {
 		acc := e.R.accessesOf(f)
+		s := map[string]bool{}
+		own := map[string]bool{}
+		for i := range acc {
+			a := &acc[i]
+			a.CondParam = flagParamOf(a.Instr)
+			for _, fam := range a.Families {
+				k := a.Kind + " " + fam
+				s[k] = true
+				if a.CondParam > 0 {
+					if e.Cond[f] == nil {
+						e.Cond[f] = map[int]map[string]bool{}
+					}
+					if e.Cond[f][a.CondParam] == nil {
+						e.Cond[f][a.CondParam] = map[string]bool{}
+					}
+					e.Cond[f][a.CondParam][k] = true
+				} else {
+					own[k] = true
+				}
+			}
+		}
 		if len(acc) > 0 {
 			e.Direct[f] = acc
-		}
-		s := map[string]bool{}
-		for _, a := range acc {
-			for _, fam := range a.Families {
-				s[a.Kind+" "+fam] = true
-			}
 		}
 		for _, ci := range calls(f) {
 			if eff, ok := isExternalKeeperCall(ci); ok {
 				s[eff] = true
+				own[eff] = true
 			}
 		}
 		e.Sum[f] = s
+		e.Own[f] = own
+		e.From[f] = map[string]bool{}
 	}
 	// fixpoint over the call graph
 	changed := true
@@ -943,21 +1028,37 @@ func computeEffects(w *World) *Effects {
 		changed = false
 		for _, f := range fns {
 			s := e.Sum[f]
-			add := func(g *ssa.Function) {
+			from := e.From[f]
+			add := func(g *ssa.Function, site ssa.CallInstruction) {
+				var skip map[string]bool
+				if site != nil && len(e.Cond[g]) > 0 {
+					for _, idx := range falseFlags(site, g, e) {
+						for k := range e.condOnly(g, idx) {
+							if skip == nil {
+								skip = map[string]bool{}
+							}
+							skip[k] = true
+						}
+					}
+				}
 				for k := range e.Sum[g] {
+					if skip[k] {
+						continue
+					}
 					if !s[k] {
 						s[k] = true
 						changed = true
 					}
+					from[k] = true
 				}
 			}
 			if n := w.CG.Nodes[f]; n != nil {
 				for _, ed := range n.Out {
-					add(ed.Callee.Func)
+					add(ed.Callee.Func, ed.Site)
 				}
 			}
 			for _, a := range f.AnonFuncs {
-				add(a)
+				add(a, nil)
 			}
 		}
 	}
